@@ -5,6 +5,7 @@ mod ctx;
 mod rng;
 mod refimpl;
 mod gen;
+mod p02;
 mod p03;
 mod p04;
 mod p05;
@@ -71,6 +72,7 @@ fn main() {
     ctx::start_watchdog(out.clone(), cpu_budget);
     let mut c = Ctx::new(&prop, tier, seed, shard, nshards, scale, &mode, time_limit, replay, out);
     match prop.as_str() {
+        "C02" => p02::run(&mut c),
         "C03" => p03::run(&mut c),
         "C04" => p04::run(&mut c),
         "C05" => p05::run(&mut c),
